@@ -10,21 +10,21 @@ IMPLEMENTED = {
  "C03": ("E1 closed BFS with payload-carrying items and borrowed-key lookups, whole-map comparison after every transition",
          "All return values and all observers (len,is_empty,get,get_priority,get_mut,iter,into_iter,into_vec) are compared with the reference map for every key of the universe after every transition of the closure and of the deep seeds."),
  "C04": ("E1/E2 exploration in the checked profile (std unchecked-access preconditions abort), union alphabet incl. leaked guards and capacity calls, worker subprocess with abort capture",
-         "The union alphabet (including iter_mut/drain guards that are leaked and then followed by arbitrary continuations) is explored with debug assertions on: any caught panic other than the documented capacity overflow, any abort of the worker (out-of-bounds unchecked access), or inconsistent index tables in any reachable state is a violation."),
+         "The union alphabet (including iter_mut/drain guards that are leaked and then followed by arbitrary continuations) is explored with debug assertions on: any caught panic other than the documented capacity overflow, any abort of the worker (out-of-bounds unchecked access), or inconsistent index tables in any reachable state is a violation. Thorough additionally re-runs a reduced-bound enumeration under Miri (aliasing models off) as a per-execution UB monitor."),
  "C06": ("every next/next_back program of length n+2 on the sorted iterators from every reachable state",
-         "From every state of the closure and every seed: into_sorted_iter/into_sorted_vec and the ascending/descending vectors; for the double-ended sorted iterator all 2^(n+2) programs with len() read before every call."),
+         "From every state of the closure (reached also through iter_mut from either end and retain_mut), every seed of up to 17 (33) elements and every state one operation away from a seed: into_sorted_iter/into_sorted_vec and the ascending/descending vectors; for the double-ended sorted iterator all 2^(n+2) programs (a structured family beyond 12 calls) with len() read before every call."),
  "C07": ("exhaustive enumeration of input vectors x legal size_hints (differential over hints), all ordered pairs of explored states for append, deep receivers on both sides of the rebuild threshold",
          "All vectors of <=4 pairs with repeats for From<Vec>/FromIterator, every legal size_hint from a menu incl. usize::MAX; extend on every explored state and on receivers of 8..33 elements with short and >=17-pair sequences so both internal strategies run on the same input and must agree; append on all ordered pairs of explored states."),
  "C09": ("every next/next_back program of length <= n+3 on iter_mut from every reachable state, references kept alive and written through, address distinctness",
-         "All programs over {next,next_back} with len()/size_hint() read before every call, directly and through &mut queue, plus the std adaptor matrix; all yielded references are kept alive, compared by address and written through at the end."),
+         "All programs over {next,next_back} (and nth/nth_back programs) with len()/size_hint() read before every call, directly and through &mut queue, plus the std adaptor matrix; all yielded references are kept alive, compared by address, checked against one underlying sequence and written through at the end. Thorough additionally under Miri at a reduced bound."),
  "C10": ("fault enumeration: panic injected at every k-th user callback of every operation from every explored state, BFS over continuations, checked profile + drop registry",
-         "For every explored state, operation, callback class (cmp, hash, eq, clone, closure, iterator next) and index below the number of callbacks the operation makes, the operation is re-run with a panic at exactly that callback; iterators are also leaked. All continuations of the post-fault state are explored to a depth bound. Only safety is judged: worker abort (out-of-bounds precondition), double drop, leak."),
+         "For every explored state, operation, callback class (cmp, hash, eq, clone, closure, iterator next) and index below the number of callbacks the operation makes, the operation is re-run with a panic at exactly that callback; iterators are also leaked. All continuations of the post-fault state are explored to a depth bound. Only safety is judged: worker abort (out-of-bounds precondition), double drop, leak. Thorough additionally under Miri at a reduced bound."),
  "C11": ("E1 closed BFS + E2 with push_increase/push_decrease for every item x offered priority",
          "Both operations for every (item, priority) - lower, equal, higher, absent - from every reachable state and on every position of the deep seeds; the whole map and the order invariant are compared after each."),
  "C12": ("E1 closed BFS over items with a payload ignored by Eq/Hash; update keys carry a foreign payload, borrowed-key lookups",
          "Inserted items carry payload A, every lookup/update key carries a payload that must never be observed, get_mut/peek_mut/iter_mut write payload B; payloads are part of the state and compared after every transition."),
  "C13": ("every next/next_back program of length n+2 on iter/into_iter/drain/sorted iterators from every reachable state + std adaptor matrix",
-         "All programs with len() and size_hint() read before every call; adaptor compositions (take, skip, zip, peekable, rev, enumerate, step_by) must report a len() equal to what they yield and must not panic."),
+         "All programs (next/next_back exhaustively, nth/nth_back after every short prefix) with len() and size_hint() read before every call; double-ended iterators must take from the two ends of one sequence; adaptor compositions (take, skip, zip, peekable, rev, enumerate, step_by) must report a len() equal to what they yield and must not panic. Thorough additionally under Miri at a reduced bound."),
  "C15": ("serde round trip of every explored state through 3 channels into both kinds + every pair sequence of <=4 pairs with repeats as input",
          "Round trips through JSON text and serde's non-self-describing SeqDeserializer (with and without length hint) from every state of the closure and the deep seeds, result == source, valid, every operation at depth 1; every small pair sequence (repeats included) must give Err or a valid queue, never a panic."),
  "C16": ("every drain consumption pattern (front j, back l, drop/forget) and clear from every reachable state; emptied queue vs fresh queue on all depth-2 operation sequences",
@@ -37,9 +37,9 @@ IMPLEMENTED.update({
  "C08": ("E1 closed BFS with retain/retain_mut/iter_mut/pop_if as transitions + from every state every consumed prefix x write pattern x direction of iter_mut and every keep-mask x rewrite table of retain_mut",
          "Predicate call logs (each element exactly once), kept sets, written priorities, the element shown to pop_if predicates and the order invariant are checked after every such call from every reachable state and on deep seeds."),
  "C14": ("== / != on all ordered pairs of explored states (all arrangements, capacities, histories) and across two hashers; clone independence from every state",
-         "Equality must coincide with equality of the (item, priority) sets on every ordered pair of states of the closure (which makes it an equivalence on the explored set), also between queues with different BuildHashers; clones have the same arrangement, behave identically and never share state with their source."),
+         "Equality must coincide with equality of the (item, priority) sets on every ordered pair of states of the closure (which makes it an equivalence on the explored set), also between queues with different BuildHashers; target.clone_from(&source) on every ordered pair must give a faithful, valid clone; clones have the same arrangement, behave identically and never share state with their source."),
  "C17": ("E1 closed BFS with every capacity call (amounts 0..100 and 2^60..usize::MAX) as a transition + twin differential: every depth-2 continuation after the call vs. on the untouched queue",
-         "Capacity calls may not change contents, extraction order or any later result (all depth-2 continuations compared with the untouched twin); capacity() lower bounds; try_reserve of unsatisfiable amounts returns Err and leaves the queue unchanged; reserve may only fail with the documented overflow panic."),
+         "Capacity calls may not change contents, extraction order or any later result (all depth-2 continuations compared with the untouched twin); capacity() lower bounds; try_reserve of unsatisfiable amounts returns Err and leaves the queue unchanged; reserve may only fail with the documented overflow panic; a grid of queues grown by pushes (never clones) x every reservation call x every small amount."),
  "C18": ("the same closed exploration under 5 BuildHashers (fixed sip, seeded, std RandomState twice, fnv via with_default_hasher, all-colliding), oracle on every transition, transition-graph fingerprints compared",
          "Each hasher's run must satisfy the reference-map oracle on every transition (legal up to tie choice); the labelled transition graphs are additionally fingerprinted and reported identical or not (a legal difference would be logged, not alarmed)."),
 })
@@ -80,7 +80,7 @@ def main():
             "kind_free_text": "hand-rolled explicit-state model checker in Rust: the transition function is the crate itself (path dependency on /repo, rebuilt on every check), states are identified by the index tables read through the hook, oracle = reference map in lock-step; closed BFS to fixpoint (E1), seeded deep trees (E2), fault enumeration (E3), program enumerators; worker subprocess with abort capture",
         }],
         "checks": checks,
-        "notes": "Every check rebuilds the harness against /repo's working tree (cargo, offline). Exit 0 = held, 1 = VIOLATION line with a replay file, 2 = machinery problem (no verdict). known_findings.json lists fixed defects (7 'fix:' commits in /repo) and open ones (none).",
+        "notes": "Every check rebuilds the harness against /repo's working tree (cargo, offline). Exit 0 = held, 1 = VIOLATION line with a replay file, 2 = machinery problem (no verdict). known_findings.json lists fixed defects (7 'fix:' commits in /repo) and open ones (none). seeded/ holds 78 independently written property-breaking changes with the checks that report them (seeded/MATRIX.md).",
         "not_applicable": [{"property_id": k, "reason": v} for k, v in sorted(NOT_YET.items())],
     }
     json.dump(m, open("/verif/MANIFEST.json","w"), indent=1)
